@@ -54,6 +54,10 @@ pub fn generate(g: &mut G, _index: u64) -> Scenario {
     if g.chance(1, 4) {
         spec.on_start.push(Work::Yield(1));
     }
+    if with_timers && g.chance(1, 4) {
+        // registered by the incarnation that is ending: it must not fire into the next one
+        spec.stopped_timer = Some(TimerSpec { id: 5, kind: g.pick(&[TimerKind::Interval, TimerKind::DelayedSend, TimerKind::DelayedExec]), period: g.range(2, 30), handler_sleep: 0 });
+    }
     let kinds = [HKind::Addr, HKind::Sender, HKind::Caller, HKind::WeakSender, HKind::WeakCaller];
     let nclients = g.range(1, 3) as usize;
     let mut fam = one_actor(g, spec, nclients, &kinds, (1, 2));
